@@ -1,6 +1,6 @@
 """what MANIFEST.json claims per property (tools/mkmanifest.py turns this into the manifest)"""
 
-FIX_COMMITS = ['0369c7c', 'e5963ae', '7c0fb30', '7b59f02', '74366c8', 'b68f84c']
+FIX_COMMITS = ['0369c7c', 'e5963ae', '7c0fb30', '7b59f02', '74366c8', 'b68f84c', 'a968b66', 'a15d91b']
 
 _NOTE = ('bounded: holds for every value of the symbolic inputs inside the boxes and sizes '
          'listed in the evidence file, nothing is claimed outside; trusted: CPython, z3, the '
@@ -75,6 +75,21 @@ CLAIMS = {
                 'instant (c,p) (p up to 3-4 covers each postponement inside acquire and release) '
                 'are symbolic; the conservation bounds are proved as SMT obligations at every '
                 'activation boundary of every path, equality with the supply at quiescence.',
+        'note': _NOTE,
+    },
+    'C13': {
+        'text': 'Volumes, start offsets and the fault instant are symbolic exact rationals (z3 '
+                'Reals, QF_LRA), limits/throughput concrete per configuration; the real windowed '
+                'transfer loop is executed symbolically and every finish instant is proved equal '
+                'to an independent processor-sharing fluid simulator on the same terms, for '
+                'every ordering of starts, finishes and the fault.',
+        'note': _NOTE + '; IEEE float rounding is outside the claim (the statement allows it)',
+    },
+    'C14': {
+        'text': 'Period, body durations, start (up to +-10^12) and an enclosing deadline are '
+                'symbolic; each path proves tick == start + j*p (interval) or previous end + p '
+                '(delay), the yielded value, IntervalExceeded exactly at the first over-run, and '
+                'a turn of a runnable spinner whenever body end and next tick share an instant.',
         'note': _NOTE,
     },
 }
